@@ -316,19 +316,59 @@ def run(p, led, tier):
             led.ok("C02-R2", key, where(walker, body[0]), "every semantic field is consumed")
 
     # ---------------- R3 / R5 pathways
-    parse_sites = 0
+    from ..resolve import Resolver
+    res = Resolver(p)
+    PARSERS = ("ast.parse", "ast.literal_eval", "json.loads")
+    module_funcs = [f for f in p.all_funcs if f.module.rel == M]
+
+    def parse_sites(f):
+        return [n for n in walk_no_nested(f.node) if isinstance(n, ast.Call) and dotted(n.func) in PARSERS and n.args]
+    pathway_count = 0
     for m in mito.methods.values():
-        for n in walk_no_nested(m.node):
-            if isinstance(n, ast.Call) and dotted(n.func) in ("ast.parse", "ast.literal_eval", "json.loads") and n.args:
-                parse_sites += 1
-                params = [x for x in m.params() if x != "self"]
-                why = _derivation(m, n.args[0], params)
-                key = f"{m.qual} ▸ {dotted(n.func)}({short(n.args[0])})"
-                if why is None:
-                    led.ok("C02-R3", key, where(m, n), "parsed text is the input itself (identity / strip)")
-                else:
-                    led.fail("C02-R3", key, where(m, n), f"the text is rewritten before parsing ({why}): string-literal contents and identifiers change",
-                             witness="'True' == '1' evaluates to True on the logic pathway")
+        direct = parse_sites(m)
+        via = []
+        for c in walk_no_nested(m.node):
+            if isinstance(c, ast.Call):
+                for g in res.resolve_call(m, c):
+                    if g is not m and g.module.rel == M and g.cls in (None, mito) and parse_sites(g) and g.name not in ("__init__",):
+                        via.append((c, g))
+        if not direct and not via:
+            continue
+        pathway_count += 1
+        params = [x for x in m.params() if x != "self"]
+        for n in direct:
+            why = _derivation(m, n.args[0], params)
+            key = f"{m.qual} ▸ {dotted(n.func)}({short(n.args[0])})"
+            if why is None:
+                led.ok("C02-R3", key, where(m, n), "parsed text is the input itself (identity / strip)")
+            else:
+                led.fail("C02-R3", key, where(m, n), f"the text is rewritten before parsing ({why}): string-literal contents and identifiers change",
+                         witness="'True' == '1' evaluates to True on the logic pathway")
+        for c, g in via:
+            gparams = [x for x in g.params() if x != "self"]
+            key = f"{m.qual} ▸ {short(c, 50)} → {g.qual}"
+            probs = []
+            for n in parse_sites(g):
+                w = _derivation(g, n.args[0], gparams)
+                if w:
+                    probs.append(f"helper rewrites the text before parsing ({w})")
+            if c.args:
+                w = _derivation(m, c.args[0], params)
+                if w:
+                    probs.append(f"the text is rewritten before it is handed to the parser helper ({w})")
+            cached = [d for d in g.node.decorator_list if any(k in src(d) for k in ("cache", "memo"))]
+            mutators = [ci for lst in p.classes.values() for ci in lst if ci.module.rel == M and "NodeTransformer" in ci.bases]
+            if cached and mutators:
+                probs.append(f"`{src(cached[0])}` shares one parsed tree between calls, pathways and instances while `{mutators[0].name}` rewrites trees in place: "
+                             "after the logic pathway has seen a text, other pathways evaluate a different expression than the one written")
+            if probs:
+                led.fail("C02-R3", key, where(m, c), "; ".join(probs), witness="metabolize('true + 1', KREBS_CYCLE) then metabolize('true + 1', GLYCOLYSIS) → 2, where Python raises NameError" if cached else None)
+            else:
+                led.ok("C02-R3", key, where(m, c), "helper parses its argument unchanged; a fresh tree per call")
+    if pathway_count < 3:
+        raise AnchorError(f"only {pathway_count} pathway method(s) reach a parser")
+    led.floors["C02-R3"] = (3, "three parsing pathways")
+    for m in mito.methods.values():
         # R5: post-processing of the walker's value
         for n in walk_no_nested(m.node):
             if isinstance(n, ast.Return) and n.value is not None and m is not walker:
